@@ -11,6 +11,8 @@ Decided (DESIGN.md §C12): the explicit integrator Phreeqc::rk_kinetics is a *co
   C12.lowexit   the early exits (-runge_kutta 1/2/3, taken only when all stage rates are equal) use weights summing to 1
   C12.partialstep  blocks that shorten the step before the early-exit tests also clear equal_rate (else a one-step exit
                 integrates only part of the interval)
+  C12.transfer  calc_final_kinetic_reaction transfers to the system exactly what the reactant gives up: coef is read after the
+                exhaustion clamp, every element contribution is scaled by coef, components are skipped only for coef == 0
   C12.step      step bookkeeping: the integrated time h_sum advances by h exactly once, only on the accepted branch
                 of the error test; a rejected step increments step_bad; the loop runs while h_sum < kin_time; the step is
                 clamped to the remaining time; rate_sim_time is set to start + kin_time after the loop
@@ -599,6 +601,68 @@ def run(P, R, tier):
 
     # ------------------------------------------------------------------ step bookkeeping
     step_rule(P, R, f, cfg, where)
+    transfer_rule(P, R)
+
+
+def transfer_rule(P, R, RULE="C12.transfer"):
+    """calc_final_kinetic_reaction: the formula elements added to the system are scaled by `coef`, the moles the reactant
+    loses.  The reactant's moles may be clamped to what it has left (Set_moles(m_temp[i])): coef must be read AFTER every
+    Set_moles of the component, and every element-list contribution must carry coef as a factor - otherwise the system
+    receives more (or less) than the reactant gives up."""
+    R.rule(RULE, "calc_final_kinetic_reaction: coef = Get_moles() is read after every clamp of the component's moles; every formula contribution is scaled by coef", minimum=5)
+    g = P.one("Phreeqc::calc_final_kinetic_reaction")
+    where = dict(file=g["file"], function=g["q"])
+    loops = [x for x in T.walk(g["body"]) if x[0] == "For" and any(T.callee_q(c) == "cxxKinetics::Get_kinetics_comps" for c in T.calls(x[3]) if T.is_node(x[3]))]
+    if len(loops) != 1 or loops[0][5][0] != "Compound":
+        R.anchor_missing(RULE, "component loop of calc_final_kinetic_reaction not found")
+        return
+    sts = [s_ for s_ in loops[0][5][2] if T.is_node(s_)]
+    defs, sets = [], []
+    for i, s_ in enumerate(sts):
+        for x in T.walk(s_):
+            if x[0] == "Bin" and x[2] == "=":
+                l = T.strip_casts(x[3])
+                r = T.strip_casts(x[4])
+                if T.is_node(l) and l[0] == "Ref" and l[3] == "coef" and T.is_node(r) and r[0] == "Call" and T.callee_q(r) == "cxxKineticsComp::Get_moles":
+                    defs.append((i, x[1]))
+            if x[0] == "Call" and T.callee_q(x) == "cxxKineticsComp::Set_moles":
+                sets.append((i, x[1]))
+    if len(defs) != 1:
+        R.anchor_missing(RULE, "expected exactly one `coef = <comp>->Get_moles()` in the component loop, found %d" % len(defs))
+        return
+    di, dl = defs[0]
+    late = [l for i, l in sets if i >= di]
+    if not sets:
+        R.anchor_missing(RULE, "the exhaustion clamp Set_moles(m_temp[i]) is no longer in the component loop")
+    elif late:
+        R.violation(RULE, "coef:after-clamp", "coef is read at line %d but the component's moles are still changed afterwards (Set_moles at line %s): the formula "
+                    "elements added to the system are scaled by the unclamped amount while the reactant loses the clamped one" % (dl, late), line=dl, **where)
+    else:
+        R.ok(RULE, "coef:after-clamp", "coef read at line %d after the clamp(s) at line(s) %s" % (dl, [l for i, l in sets]))
+    # every contribution carries coef
+    n = 0
+    for x in T.walk(loops[0][5]):
+        if x[0] == "Call" and T.callee_name(x) in ("add_elt_list", "get_elts_in_species") and len(x[4]) >= 2:
+            n += 1
+            inst = "%s#%d" % (T.callee_name(x), n)
+            fac = x[4][1]
+            has = any(y[0] == "Ref" and y[3] == "coef" for y in T.walk(fac))
+            lin = T.strip_casts(fac)
+            ok = has and (lin[0] == "Ref" or (lin[0] == "Bin" and lin[2] == "*") or (lin[0] == "Un" and lin[2] == "-"))
+            if ok:
+                R.ok(RULE, inst, "scaled by " + T.text(fac)[:60])
+            else:
+                R.violation(RULE, inst, "formula contribution `%s` is not a product with coef" % T.text(fac)[:80], line=x[1], **where)
+    # the loop cannot skip a component except for coef == 0
+    for x in T.walk(loops[0][5]):
+        if x[0] == "If" and any(y[0] == "Continue" for y in T.walk(x[3])):
+            c = T.strip_casts(x[2])
+            ok = c[0] == "Bin" and c[2] == "==" and T.strip_casts(c[3])[0] == "Ref" and T.strip_casts(c[3])[3] == "coef" and \
+                T.strip_casts(c[4])[0] == "Lit" and frac_lit(T.strip_casts(c[4])[3]) == 0
+            if ok:
+                R.ok(RULE, "skip:zero", "components are skipped only when coef == 0")
+            else:
+                R.violation(RULE, "skip:%d" % x[1], "a component is skipped under `%s`: its reaction is not transferred to the system" % T.text(x[2])[:60], line=x[1], **where)
 
 
 def step_rule(P, R, f, cfg, where):
